@@ -39,7 +39,7 @@ impl Tokens {
         t
     }
     pub fn label(&self, tok: &str) -> String {
-        self.labels.get(tok).cloned().unwrap_or_else(|| tok.to_string())
+        self.labels.get(tok).cloned().unwrap_or_else(|| crate::exec::unplace(tok))
     }
     pub fn val(&self, tok: &str) -> String {
         self.vals.get(tok).cloned().unwrap_or_else(|| tok.to_string())
